@@ -1335,6 +1335,10 @@ def plot_clause(ctx, hook=None):
         D = gen_panel_def(rng, plain=True)
         D.update(model='none', alphaGiven=False, y12='none')
         p = build_panel(D)
+        for f_ in 'uv':                 # in-plane edges free: with few terms the edge flags would otherwise switch the whole in-plane field off
+            for e_ in ('1t', '1r', '2t', '2r'):
+                for d_ in 'xy':
+                    setattr(p, f_ + e_ + d_, 1.)
         if hook:
             hook(p)
         A = Args(D)
